@@ -101,6 +101,8 @@ fn main() {
             macro_rules! dict_t1 { ($n:expr, $w:expr, $tot:expr) => { $tot += t1::sparse_big::<$n>($w) + t1::repeat::<$n>($w); } }
             with_dict_sizes!(dict_t1, &mut w, dsz);
             eprintln!("STAT t1_dictionary_sizes transitions={} sizes={:?}", dsz, DICT_SIZES);
+            let cl = t1::clones::<0>(&mut w) + t1::clones::<1>(&mut w) + t1::clones::<3>(&mut w) + t1::clones::<6>(&mut w) + t1::clones::<11>(&mut w);
+            eprintln!("STAT t1_clones cases={} sizes=0,1,3,6,11", cl);
             let ck = t1::cof_kinds::<8>(&mut w);
             eprintln!("STAT t1_cof_error_kinds transitions={}", ck);
             let rp = t1::repeat::<16>(&mut w) + t1::repeat::<64>(&mut w);
